@@ -269,10 +269,13 @@ func (m *fStompSubscriberTransport) Unsubscribe() error {
 		return nil
 	}
 
-	close(m.stopC)
+	// Unsubscribe at the broker before stopping processMessages: the stomp
+	// client only sees the broker's RECEIPT after it has handed every earlier
+	// MESSAGE to sub.C, so the loop has to keep draining sub.C until then.
 	if err := m.sub.Unsubscribe(); err != nil {
 		return thrift.NewTTransportExceptionFromError(err)
 	}
+	close(m.stopC)
 
 	m.isSubscribed = false
 	m.callback = nil
